@@ -6,6 +6,7 @@ from __future__ import annotations
 
 import contextlib
 import itertools
+import os
 import math
 import random
 import z3
@@ -16,15 +17,16 @@ from .core import SymInt, SymReal, SymBool, wrap, to_int, to_real, unwrap
 
 
 class Outcome:
-    def __init__(self, kind, value=None, exc=None):
+    def __init__(self, kind, value=None, exc=None, origin=None):
         self.kind = kind  # 'return' | 'raise'
         self.value = value
         self.exc = exc
+        self.origin = origin  # where the exception was raised: 'code' (flodym) | 'value model' | 'library'
 
     def __repr__(self):
         if self.kind == "return":
             return f"Outcome(return {type(self.value).__name__})"
-        return f"Outcome(raise {type(self.exc).__name__}: {str(self.exc)[:80]})"
+        return f"Outcome(raise {type(self.exc).__name__}: {str(self.exc)[:80]})" + (f" [raised in the {self.origin}]" if self.origin and self.origin != "code" else "")
 
 
 class ContractViolation(Exception):
@@ -61,6 +63,40 @@ class _Stubs:
                     pass
 
 
+_MODEL_TYPE_NAMES = ("SymBool", "SymInt", "SymReal", "SymArr", "SymItemList", "SymItemSet", "SymSeq", "SymRange", "SymTable", "SymEnumerate", "SymZip", "ItemPosMap", "FakeIndex", "FakePandas", "FakeLifetime", "FakeT", "_CutLoop", "BoolCol", "ColValues", "ColSet", "Opaque", "ArithRef", "BoolRef", "ExprRef", "'Item'", "'Col'", "'Rows'", "fvc.")
+
+
+def _raised_in(e):
+    """where the innermost frame of the exception's traceback lives"""
+    tb = e.__traceback__
+    fn = ""
+    while tb is not None:
+        fn = tb.tb_frame.f_code.co_filename
+        tb = tb.tb_next
+    here = os.path.dirname(os.path.dirname(os.path.abspath(__file__)))
+    if fn.startswith(os.path.join(here, "fvc")) or fn.startswith(os.path.join(here, "contracts")):
+        return "value model"
+    if os.sep + "flodym" + os.sep in fn and "site-packages" not in fn:
+        return "code"
+    return "library"
+
+
+def _is_value_model_gap(e):
+    """an AttributeError / TypeError / NotImplementedError (or a z3 error) that names a class of the value model: the
+    code under test asked a symbolic stand-in for something only the real numpy / pandas value has"""
+    try:
+        import z3 as _z3
+
+        if isinstance(e, _z3.Z3Exception):
+            return True
+    except Exception:
+        pass
+    if not isinstance(e, (AttributeError, TypeError, NotImplementedError)):
+        return False
+    msg = str(e)
+    return any(t in msg for t in _MODEL_TYPE_NAMES)
+
+
 class BaseWorld:
     symbolic = False
 
@@ -86,7 +122,17 @@ class BaseWorld:
             except (core.Unsupported, core.PathInfeasible, ContractViolation):
                 raise
             except Exception as e:  # an exception raised by the code under test is an outcome
-                return Outcome("raise", exc=e)
+                if self.symbolic and _is_value_model_gap(e):
+                    # ... unless it only says that a symbolic stand-in lacks something the real value has (a method of
+                    # numpy scalars, an operand type): the real code would not raise here -> undecided, the concrete
+                    # evaluation of the same contract takes over
+                    raise core.Unsupported(f"value model: {type(e).__name__}: {str(e)[:160]}") from e
+                origin = _raised_in(e)
+                if self.symbolic and origin == "value model" and getattr(self.c, "model_exc", None) is None:
+                    # raised by a frame of the numpy / pandas model (its emulation of a library error -- or a gap of
+                    # the emulation): a native run of the same input raises it too if it is the library's
+                    self.c.model_exc = f"{type(e).__name__}: {str(e)[:200]}"
+                return Outcome("raise", exc=e, origin=origin)
 
     def spec(self, thunk):
         """evaluate a specification function (may raise the specified exception)"""
@@ -174,7 +220,7 @@ class SymWorld(BaseWorld):
         return world.shims()
 
     # inputs
-    def dim(self, letter, name=None, lo=1, n=None, tag=None):
+    def dim(self, letter, name=None, lo=1, n=None, tag=None, numeric_ok=False):
         d = world.make_dimension(letter, name=name, lo=lo, n=n, tag=tag)
         self.in_dims.setdefault(tag or letter, d.items.n)
         return d
@@ -472,7 +518,9 @@ class ConcWorld(BaseWorld):
     def _shims(self):
         return _np.errstate(all="ignore")
 
-    def dim(self, letter, name=None, lo=1, n=None, tag=None):
+    def dim(self, letter, name=None, lo=1, n=None, tag=None, numeric_ok=False):
+        """numeric_ok: the unit treats items as opaque labels -- on the odd runs they are numbers stored in
+        descending order (years or ages as they come from a file; nothing may sort them or take them for positions)"""
         from flodym.dimensions import Dimension
 
         tag = tag or letter
@@ -489,6 +537,13 @@ class ConcWorld(BaseWorld):
         self._used_sizes[tag] = n
         name = name or f"Dim{letter.upper()}{letter}"
         k = sum(map(ord, tag))  # stable per dimension tag: the same dimension made twice has the same items
+        if numeric_ok and self.square and not self.shared_items:
+            base = 1000 * (1 + k % 9)
+            vals = [base + 10 * j for j in range(n)][::-1]
+            if k % 2:
+                vals = [v + 0.5 for v in vals]
+            self.inputs.setdefault("numeric_items_in_descending_order", []).append(tag)
+            return Dimension(name=name, letter=letter, items=vals)
         if self.shared_items:
             # overlapping item pools: dimension k holds it<k%2> .. : some items occur in several dimensions, some do not
             return Dimension(name=name, letter=letter, items=[f"it{j + (k % 2)}" for j in range(n)])
